@@ -17,7 +17,7 @@ def root_fn(f):
 
 
 def family(ctx, top, kinds=("coroutine", "closure")):
-    return [g for g in ctx.F.fns if root_fn(g) is top and g.kind in kinds]
+    return common.family(ctx, top, kinds)
 
 
 def rule_only_available(ctx):
